@@ -25,7 +25,8 @@ LEVEL_NOTE = (
     'Trusted: Lean kernel (axioms propext, Classical.choice, Quot.sound), the hand-written model (validated by '
     'correspondence, not proved equal to the Python), Python datetime/dateutil/yearfrac as modelled by hand, '
     'IEEE rounding (results compared exactly where double arithmetic is exact, else within 4 ulp). Known findings: '
-    'D45 (time of day in datetime_to_number), D1803 (30/360 on 28 February), D1804 (basis 1 is AFB, not Excel).')
+    'D45 (time of day in datetime_to_number), D1803 (30/360 on 28 February), D1804 (basis 1 is AFB, not Excel). '
+    'Fixed in /repo and guarded by this check: D44, D46/D56, D47, D48, D1801, D1802, D1805.')
 DESIGN_REF = '§4 C18'
 EXTRA_EXTRACTORS = ('c18_date',)
 
@@ -193,7 +194,7 @@ def real_op(F, op, args):
 
 def num_of(w):
     """exact rational of an I:/F:/D: wire value"""
-    if w[:2] in ('I:', 'F:', 'D:'):
+    if w[:2] in ('I:', 'F:', 'D:') and '|' not in w:
         return common.un_frac(w[2:]) if w[:2] != 'I:' else Fraction(int(w[2:]))
     return None
 
